@@ -86,6 +86,16 @@ def run(tier, seed):
         vals = {v for k, v in a.items() if v != "n/a"}
         if len(vals) > 1:
             res.violations.append({"kind": "predicate", "line": c.line, "answers": a, "why": "the three build configurations (stable / nightly / nightly+simd_backend) disagree"})
+        # operations that only exist on the nightly builds are judged there (the stable runner answers n/a)
+        if c.expect is not None and a.get("stable") == "n/a":
+            for cfg in ("nightly", "simd"):
+                v = a.get(cfg, "n/a")
+                if v == "n/a":
+                    continue
+                okp = c.expect(v) if callable(c.expect) else (v == c.expect or v.startswith(c.expect + " "))
+                if not okp or v.startswith("mismatch") or v == "panic":
+                    res.violations.append({"kind": "predicate", "line": c.line, "answers": a, "why": "property predicate false on the %s build: %s" % (cfg, c.meta.get("why", c.cls))})
+                    break
         g = c.meta.get("container_group")
         if g:
             for cfg in outs:
